@@ -824,6 +824,10 @@ func (fg *FnGen) mapLookup(fr *Frame, x *ssa.Lookup, m, k *Term, st *State, reac
 	dom, val := fg.mapVars(mt, st)
 	in := And(Neq(m, IntLit(0)), Select(Select(dom, m), k))
 	v := Ite(in, Select(Select(val, m), k), fg.g.ti.zeroOf(mt.Elem()))
+	if _, innerIsMap := mt.Elem().Underlying().(*types.Map); innerIsMap && !types.Identical(mt.Elem(), mt) && !fg.noDefs {
+		// a map stored in a map of a different type is a different object (objects of different types never alias)
+		fg.assumeIf(reach, Neq(Select(Select(val, m), k), m))
+	}
 	if x.CommaOk {
 		fr.tuples[x] = []*Term{v, in}
 	} else {
